@@ -3311,10 +3311,12 @@ class RegexMatch(Match):
                 else:
                     new_set = self._convert_raw_regex_char_class(child)
                 incoming_set = incoming_set.union(new_set)
-            if not inverted:
-                return set((incoming_set,))
-            else:
-                return set((incoming_set.invert(),))
+            if inverted:
+                incoming_set = incoming_set.invert()
+            if incoming_set.empty():
+                # nothing gets past such a set, but the states leading up to it would still be built: the mismatch would be reported late
+                raise IllegalParseTree("Character set matches nothing", regex_tree)
+            return set((incoming_set,))
 
 
     def _make_disjoint_groupings(self, original_char_classes: List[RegexCharClass]):
@@ -3496,10 +3498,12 @@ class BinaryRegexMatch(RegexMatch):
                     end = list(self._convert_raw_regex_unimportant(child.children[1]).chars)[0]
                     new_set = RegexCharClass(chr(x) for x in range(ord(start), ord(end)+1))
                 incoming_set = incoming_set.union(new_set)
-            if not inverted:
-                return set((incoming_set,))
-            else:
-                return set((incoming_set.invert(),))
+            if inverted:
+                incoming_set = incoming_set.invert()
+            if incoming_set.empty():
+                # nothing gets past such a set, but the states leading up to it would still be built: the mismatch would be reported late
+                raise IllegalParseTree("Character set matches nothing", regex_tree)
+            return set((incoming_set,))
 
     def _convert_raw_regex_unimportant(self, byte: lark.Token):
         v = RegexCharClass((chr(int(byte.value, base=16)),))
